@@ -368,5 +368,17 @@ func TestProp_C15_Matrix(t *testing.T) {
 			}
 		}
 	}
+	// the randomness source offers 0..10 reserved values (< 0x100) before a usable one
+	for n := 0; n <= 10; n++ {
+		idx++
+		if idx%sn != si {
+			continue
+		}
+		var own []uint32
+		for i := 0; i < n; i++ {
+			own = append(own, []uint32{0, 1, 0xff, 0x42}[i%4])
+		}
+		sim.Judge(t, "C15matrix", &C15Script{Cfg: SessCfg{V: 3, SeedA: 500, SeedB: 601, KeyA: 2, KeyB: 5}, Own: append(own, 0x1234), Steps: []TagStep{{K: "handshake"}, {K: "text"}, {K: "vsend"}}})
+	}
 	sim.MarkCompleted("C15matrix", true)
 }
